@@ -70,6 +70,9 @@ func runC14(r *vhlib.Run) {
 	wfllife(r)
 	// lifecycle histories of bzip2.Reader against the implementation-level model, per call (Bzip2/ImplLife.v)
 	wbzlife(r)
+	// xflate.Writer / xflate.Reader histories WITH Reset against the models extended by Reset (XFlate/WriterReset.v,
+	// ReaderReset.v), live, per op
+	runWXFReset(r)
 	// meta.Reader itself against its implementation-level model, per call (Meta/ReaderImpl.v)
 	runWMETAR(r)
 	// bzip2.Reader with Reset between streams against its implementation-level model (Bzip2/Impl.v)
